@@ -152,6 +152,22 @@ pub fn eval_struct(rec: &Rec, real_ns: i128, mono_ns: i128) -> Result<NowOut, St
 
 /// Entry point 2: the Rust client on a segment file holding the record.
 pub fn eval_client(en: &mut Entries, rec: &Rec, real_ns: i128, mono_ns: i128) -> Result<NowOut, String> {
+    // The client is long-lived. Before the record under test it reads, through a complete earlier
+    // publication, the same measurement with the strongest status (what the daemon publishes before
+    // chrony loses synchronisation): whatever the reader keeps from one publication to the next must
+    // not leak into the answer for the record under test.
+    if rec.status != 1 {
+        let earlier = Rec { status: 1, ..*rec };
+        en.gen_rust = next_gen(en.gen_rust);
+        en.file_rust.write_all_at(&segment_bytes(&Hdr::valid(en.gen_rust), &earlier), 0).map_err(|e| e.to_string())?;
+        let vc = VClock::new(mono_ns, real_ns);
+        let _g = vc.install();
+        let client = &mut en.client;
+        let _ = guard("ClockBoundClient::now()", || match client.now() {
+            Ok(_) => NowOut::Ok { earliest_ns: 0, latest_ns: 0, status: 0 },
+            Err(e) => client_err_to_out(e),
+        });
+    }
     en.gen_rust = next_gen(en.gen_rust);
     let bytes = segment_bytes(&Hdr::valid(en.gen_rust), rec);
     en.file_rust.write_all_at(&bytes, 0).map_err(|e| e.to_string())?;
